@@ -799,7 +799,7 @@ fn $name() {
 }
 
 // @harness c09_format_image_o4
-// @props C09 C20 C03
+// @props C09 C20
 // @tier thorough
 // @cost 1700
 // @timeout 3400
@@ -811,7 +811,7 @@ fn $name() {
 format_image!(c09_format_image_o4, 4);
 
 // @harness c09_format_image_o0
-// @props C09 C20 C03
+// @props C09 C20
 // @tier thorough
 // @cost 1700
 // @timeout 3400
@@ -823,7 +823,7 @@ format_image!(c09_format_image_o4, 4);
 format_image!(c09_format_image_o0, 0);
 
 // @harness c09_format_image_o6
-// @props C09 C20 C03
+// @props C09 C20
 // @tier thorough
 // @cost 1700
 // @timeout 3400
